@@ -1343,3 +1343,117 @@ func TestVerifC15_Perm(t *testing.T) {
 	st.flush()
 	t.Logf("C15 Perm: %d helper executions, %d distinct non-trivial tapes, n <= %d", c.evals, distinct, maxN)
 }
+
+// ---------------------------------------------------------------------------
+// (c) UintN: rejection at every depth.  The decision function verified by
+// TestVerifC15_UintN at read depths 1 and 2 must be the same at every depth: a
+// source that serves K rejected values and then an accepted value v must yield
+// exactly v after exactly K+1 reads, for every K (no cap on the number of
+// attempts, no fallback that folds a rejected value into the range).
+
+type c15DeepTape struct {
+	rejected, accepted uint64
+	depth              int
+	reads              int
+	size               int
+	badSize            bool
+}
+
+func (t *c15DeepTape) Read(b []byte) {
+	v := t.accepted
+	if t.reads < t.depth {
+		v = t.rejected
+	} else if t.reads > t.depth+4096 {
+		panic(c15Runaway{})
+	}
+	t.reads++
+	if len(b) != t.size {
+		t.badSize = true
+	}
+	for i := range b {
+		b[i] = byte(v)
+		v >>= 8
+	}
+}
+
+func TestVerifC15_Deep(t *testing.T) {
+	env := c15GetEnv(128, 1024)
+	st := c15NewStats()
+	rng := &c15Rng{x: env.seed}
+	var ns []uint64
+	for n := uint64(3); n <= uint64(env.n)*4; n++ {
+		if n&(n-1) != 0 {
+			ns = append(ns, n)
+		}
+	}
+	for k := uint(2); k < 64; k++ {
+		ns = append(ns, uint64(1)<<k+1, uint64(1)<<k-1, uint64(1)<<k+uint64(1)<<(k-1))
+	}
+	if env.replay != "" {
+		m := c15LoadReplay(t, env.replay)
+		if n, ok := c15DrawUint(m, "n"); ok && n > 0 {
+			ns = []uint64{n}
+		}
+	}
+	depths := []int{1, 2, 3, 7, 8, 15, 16, 17, 31, 32, 33, 63, 64, 65, 100, 127, 128, 129, 255, 256, 257, 1000}
+	if env.thorough {
+		depths = nil
+		for d := 1; d <= 300; d++ {
+			depths = append(depths, d)
+		}
+		depths = append(depths, 1000, 4000)
+	}
+	var cur uint64
+	var curDepth int
+	defer func() {
+		if rec := recover(); rec != nil {
+			msg := fmt.Sprintf("UintN(%d) panicked after %d rejected reads: %v", cur, curDepth, rec)
+			if _, ok := rec.(c15Runaway); ok {
+				msg = fmt.Sprintf("UintN(%d) did not stop at the first accepted value after %d rejected reads", cur, curDepth)
+			}
+			c15Report(t, st, env, c15Violation([]c15Draw{c15U("n", cur), c15I("depth", int64(curDepth))}, "%s", msg))
+		}
+	}()
+	for i, n := range ns {
+		if i%env.shards != env.shard {
+			continue
+		}
+		sh := c15ShapeOf(n)
+		if sh.mask == sh.max {
+			continue // power of two minus... every masked value is accepted: no rejection possible
+		}
+		cur = n
+		for _, d := range depths {
+			curDepth = d
+			// a rejected masked value in (max, mask] and an accepted one in [0, max], with random high bits above the mask
+			rej := sh.max + 1 + rng.next()%(sh.mask-sh.max)
+			acc := rng.next() % (sh.max + 1)
+			if sh.bitlen < 64 {
+				hi := rng.next() &^ sh.mask
+				rej |= hi
+				acc |= (rng.next() &^ sh.mask)
+			}
+			tape := &c15DeepTape{rejected: rej, accepted: acc, depth: d, size: sh.size}
+			p := &genericPRG{randCore: tape}
+			got := p.UintN(n)
+			st.Evaluations++
+			st.NonTrivial++
+			st.ExtraDistinct++
+			draws := []c15Draw{c15U("n", n), c15I("depth", int64(d)), c15U("rejected", rej), c15U("accepted", acc)}
+			if tape.badSize {
+				c15Report(t, st, env, c15ModelNA("UintN(%d) requested a read of a length other than ceil(bitlen(n-1)/8) = %d bytes", n, sh.size))
+				return
+			}
+			if got != acc&sh.mask || tape.reads != d+1 {
+				c15Report(t, st, env, c15Violation(draws,
+					"UintN(%d) on a source serving %d rejected values (masked %d > n-1) and then the accepted value %d returned %d after %d reads; rejection sampling returns %d after %d reads: values are not equally likely",
+					n, d, rej&sh.mask, acc&sh.mask, got, tape.reads, acc&sh.mask, d+1))
+				return
+			}
+		}
+	}
+	st.Classes["uintN:deepRejection"] = st.Evaluations
+	st.Exhaustive = append(st.Exhaustive, fmt.Sprintf("C15: UintN with K rejected reads then an accepted one, %d depths K up to %d, for every non-power-of-two n <= %d and 2^k+1, 2^k-1, 3·2^(k-1)", len(depths), depths[len(depths)-1], env.n*4))
+	st.sample(map[string]any{"test": "TestVerifC15_Deep", "n": cur, "depths": len(depths)})
+	st.flush()
+}
